@@ -83,6 +83,10 @@ pub struct Case {
     /// the destination argument is a symlink to the destination directory (only when that is a directory)
     #[serde(default)]
     pub dest_via_link: bool,
+    /// the second source has the SAME basename as the first (it lives in the directory dup/): both map onto
+    /// one destination path. Only C06 (and C16) generate this; cp refuses such invocations.
+    #[serde(default)]
+    pub dup_basename: bool,
 }
 
 fn src_spec() -> BoxedStrategy<SrcSpec> {
@@ -116,7 +120,7 @@ pub fn strategy() -> BoxedStrategy<Case> {
         prop_oneof![3 => Just(0u8), 2 => 0u8..64],
         prop::bool::weighted(0.12),
     )
-        .prop_map(|(srcs, dest, dest_spell, flags, no_target_dir, target_dir_opt, glob, nolinks, extra, dest_via_link)| Case { srcs, dest, dest_spell, flags, no_target_dir, target_dir_opt, glob, nolinks, extra, dest_via_link })
+        .prop_map(|(srcs, dest, dest_spell, flags, no_target_dir, target_dir_opt, glob, nolinks, extra, dest_via_link)| Case { srcs, dest, dest_spell, flags, no_target_dir, target_dir_opt, glob, nolinks, extra, dest_via_link, dup_basename: false })
         .boxed()
 }
 
@@ -144,7 +148,9 @@ pub fn build(c: &Case, root_abs: &[u8]) -> Built {
     let mut names: Vec<Vec<u8>> = vec![];
     for (i, s) in c.srcs.iter().enumerate() {
         let mut n = NAMES[s.name as usize % TOP_SAFE].to_vec();
-        if names.contains(&n) {
+        if c.dup_basename && i == 1 {
+            n = names[0].clone();
+        } else if names.contains(&n) {
             n.extend_from_slice(format!("{}", i).as_bytes());
         }
         names.push(n);
@@ -174,7 +180,7 @@ pub fn build(c: &Case, root_abs: &[u8]) -> Built {
         // a source that is itself a symlink lives in the directory w/ and points to ../by/...: the same
         // relative text also resolves from inside the destination directory (to a bystander)
         let in_w = !globbing && matches!(kind, SrcKind::LinkToFile | SrcKind::LinkToDir);
-        let top = if in_w { join(b"w", n) } else { join(base, n) };
+        let top = if c.dup_basename && src_tops.len() == 1 && !globbing { join(b"dup", n) } else if in_w { join(b"w", n) } else { join(base, n) };
         if in_w && !ents.iter().any(|e| e.path == b"w") {
             ents.push(Ent::dir(b"w"));
         }
